@@ -11,8 +11,9 @@ Model of
   choice of the unmarshaller, binding of `resp.result` / `resp.error`).
 
 External code is a parameter: the verdict of a custom state checker on the response at hand
-(`custom`), the outcome of reading the body (`readOK`) and of `encoding/json` /
-`encoding/xml` on the body for the selected target (`jsonOK`, `xmlOK`).
+(`custom`), the outcome of reading the body (`readOK`), of the client's response-body
+transformer on it (`xf`) and of `encoding/json` / `encoding/xml` on the body for the selected
+target (`jsonOK`, `xmlOK`).
 -/
 namespace Req.Result
 open Req.Proto
@@ -28,6 +29,9 @@ inductive Err
   | builder        -- Request.error accumulated by setters (Do returns before any middleware)
   | unreplayable   -- retry enabled with an unreplayable body
   | digest         -- digest challenge could not be answered
+  | output         -- SetOutput / SetOutputFile: creating or writing the output failed (handleDownload)
+  | ctxCanceled    -- an error that wraps context.Canceled (raised by the transport / a wrapper)
+  | ctxDone        -- `r.Context().Err()`, assigned by do()'s wait before a retry when the context is done
   deriving DecidableEq, Repr, Inhabited
 
 inductive ResultState
@@ -79,11 +83,28 @@ inductive Codec
   | json | xml
   deriving DecidableEq, Repr, Inhabited
 
-/-- `unmarshalBody`: JSON if the Content-Type contains "json", else XML if it contains "xml",
-else JSON again (case-sensitive, anywhere in the value). -/
+/-- ASCII lower-casing of one byte. -/
+def lowerB (b : UInt8) : UInt8 := if 65 ≤ b ∧ b ≤ 90 then b + 32 else b
+
+/-- `strings.ToLower` as far as the two searches below can tell. The Go function lower-cases
+rune by rune (`unicode.ToLower`; an invalid byte becomes U+FFFD): bytes < 0x80 are runes of their
+own and only `A`–`Z` among them change, every other rune is and stays a run of bytes ≥ 0x80 —
+except U+0130 → `i` and U+212A → `k`, the only non-ASCII runes whose lower case is ASCII. Neither
+`i` nor `k` occurs in "json" / "xml", so these act as separators exactly like the bytes they
+replace: whether the lower-cased string contains "json" / "xml" is decided by the ASCII-lowered
+bytes. (Assumption of the model, exercised by the lanes with Kelvin signs, dotted capital I,
+other non-ASCII letters and invalid UTF-8 in the content type.) -/
+def lowerBytes (ct : Bytes) : Bytes := ct.map lowerB
+
+/-- `util.IsJSONType` / `util.IsXMLType` (since /repo f13c292: case-insensitive, RFC 9110 8.3.1). -/
+def isJSONType (ct : Bytes) : Bool := hasSub sJson (lowerBytes ct)
+def isXMLType (ct : Bytes) : Bool := hasSub sXml (lowerBytes ct)
+
+/-- `unmarshalBody` / `Response.Unmarshal`: JSON if the Content-Type mentions "json" (in any
+letter case, anywhere in the value), else XML if it mentions "xml", else JSON again. -/
 def codecFor (ct : Bytes) : Codec :=
-  if hasSub sJson ct then .json
-  else if hasSub sXml ct then .xml
+  if isJSONType ct then .json
+  else if isXMLType ct then .xml
   else .json
 
 /-! ### binding -/
@@ -95,15 +116,45 @@ inductive Target
   | errorCommon   -- new(Client.commonErrorType) → resp.error
   deriving DecidableEq, Repr, Inhabited
 
+/-- Outcome of the client's response-body transformer (`Client.SetResponseBodyTransformer`) on
+the body of one response, when `ToBytes` gets to call it (it does only after a complete read). -/
+inductive Xf
+  | none                                  -- no transformer installed
+  | ok                                    -- returns a (non-nil) body and no error
+  | fail (e : Err) (keepsBody : Bool)     -- returns an error, together with a nil / a non-nil body
+  deriving DecidableEq, Repr, Inhabited
+
 /-- The facts about one http response that binding depends on. -/
 structure Http where
   status : Int
   ct : Bytes
   custom : Option ResultState   -- verdict of the client's custom checker, if one is installed
   readOK : Bool                 -- reading the body to the end succeeds
-  jsonOK : Bool                 -- json.Unmarshal(body, target) succeeds
+  jsonOK : Bool                 -- json.Unmarshal(body, target) succeeds (body as handed to the unmarshaller)
   xmlOK : Bool                  -- xml.Unmarshal(body, target) succeeds
+  xf : Xf := .none              -- what the response-body transformer does with this body
   deriving DecidableEq, Repr, Inhabited
+
+/-- `(*Response).ToBytes` when it really reads (`resp.Err == nil`, `resp.body == nil`):
+`body, err = io.ReadAll(r.Body); if err == nil && transformer != nil { body, err = transformer(body, …) }`
+and, deferred, `if err != nil { r.Err = err }; r.body = body`. `acqErr` is the error returned AND
+recorded in `resp.Err`. -/
+def Http.acqErr (h : Http) : Option Err :=
+  if !h.readOK then some .read
+  else match h.xf with
+    | .fail e _ => some e
+    | _ => none
+
+/-- … and whether `resp.body` is non-nil afterwards (`io.ReadAll` always returns a non-nil slice,
+a failing transformer returns what it likes). -/
+def Http.acqBody (h : Http) : Bool :=
+  if !h.readOK then true
+  else match h.xf with
+    | .fail _ keeps => keeps
+    | _ => true
+
+/-- The body reads to the end and the transformer (if any) accepts it. -/
+def Http.bodyOK (h : Http) : Bool := h.acqErr.isNone
 
 /-- The two result slots of a `Response` (`result`, `error`). -/
 structure Slots where
@@ -162,8 +213,8 @@ def parseBody (i : BindIn) : BindOut :=
     match i.respErr with
     | some e => { keep with err := some e }                      -- ToBytes: `if r.Err != nil`
     | none =>
-      if !i.bodyCached && !h.readOK then                          -- ToBytes reads, fails, records
-        { keep with err := some .read, respErr := some .read, bodyCached := true }
+      if !i.bodyCached && !h.bodyOK then                          -- ToBytes reads / transforms, fails, records
+        { keep with err := h.acqErr, respErr := h.acqErr, bodyCached := h.acqBody }
       else if codecOK h then
         { keep with slots := store i.slots t, bodyCached := true, codec := some (codecFor h.ct) }
       else
